@@ -61,6 +61,18 @@ def main_paths(p):
                 o = c[2] if c[3] == attr('command') else c[3]
                 if T.is_const(o):
                     cmd = o[1]
+        if cmd is None:
+            # decided by exclusion: (command is one of the table's keys) and not any of the others
+            flat = set()
+            for c in cs:
+                flat.update(_split(c))
+            for c in flat:
+                if T.is_op(c, 'OR') and all(T.is_op(d, 'EQ') and attr('command') in d[2:] for d in c[2:]):
+                    left = [d for d in c[2:] if T.not_(d) not in flat]
+                    if len(left) == 1:
+                        o = left[0][2] if left[0][3] == attr('command') else left[0][3]
+                        if T.is_const(o):
+                            cmd = o[1]
         rec = {'conds': cs, 'command': cmd, 'paranoia': T.truth(attr('paranoia')) in cs, 'file': T.truth(attr('file')) in cs,
                'leaf': leaf, 'effects': list(ev.effects)}
         if T.tag(leaf) == 'raise' and leaf[1].startswith('SINK#'):
@@ -90,7 +102,7 @@ def main_paths(p):
     return out
 
 
-def _add_argument_calls(fi):
+def _add_argument_calls(fi, p=None):
     """[(parser variable, positional args consts, keywords {name: ast})] in source order, with the sub-command each
     parser variable stands for."""
     owner = {}
@@ -107,6 +119,26 @@ def _add_argument_calls(fi):
             names = [a.value for a in n.args if isinstance(a, ast.Constant)]
             kw = {k.arg: k.value for k in n.keywords}
             calls.append((owner.get(n.func.value.id, '<global>'), names, kw, n.lineno))
+    # declarations made through a helper that is handed the parser: helper(parser_x, ...) with parser.add_argument inside
+    if p is not None:
+        for n in ast.walk(fi.node):
+            if isinstance(n, ast.Call) and isinstance(n.func, ast.Name):
+                h = fi.module.functions.get(n.func.id)
+                if h is None or h is fi:
+                    continue
+                bind = {}
+                for i, a in enumerate(n.args):
+                    if isinstance(a, ast.Name) and i < len(h.params):
+                        bind[h.params[i]] = a.id
+                for kw_ in n.keywords:
+                    if isinstance(kw_.value, ast.Name) and kw_.arg in h.params:
+                        bind[kw_.arg] = kw_.value.id
+                for m in ast.walk(h.node):
+                    if isinstance(m, ast.Call) and isinstance(m.func, ast.Attribute) and m.func.attr == 'add_argument' \
+                            and isinstance(m.func.value, ast.Name) and m.func.value.id in bind:
+                        names = [a.value for a in m.args if isinstance(a, ast.Constant)]
+                        kw = {k.arg: k.value for k in m.keywords}
+                        calls.append((owner.get(bind[m.func.value.id], '<global>'), names, kw, n.lineno))
     return calls, owner
 
 
@@ -206,7 +238,7 @@ def run(ctx):
     # ---------------------------------------------------------------- parse_args table
     fpa = p.get_function('__main__.parse_args')
     with ctx.obligation('C20.ARGS', '__main__.parse_args', None, fpa.where) as ob:
-        calls, owner = _add_argument_calls(fpa)
+        calls, owner = _add_argument_calls(fpa, p)
         found = {}
         for own, names, kw, line in calls:
             found[(own, _dest(names))] = (kw, line)
@@ -314,6 +346,13 @@ def run(ctx):
             ok = any(T.is_op(k, 'OR') and set(k[2:]) == want for k in known)
             ob.require(ok, 'mnemonic accepts a sentence whose word count is not 12/15/18/21/24', fi.where,
                        found=[T.show(x, maxdepth=3) for x in known][:4])
+            # the wallet must be the API's wallet for the sentence that was typed: the validator hands it on as it is
+            # (today: with surrounding white space stripped), never re-written word by word
+            if leaf != val and not (T.is_op(leaf, 'METHOD') and leaf[2] == val and leaf[3] == T.const('strip') and len(leaf) == 4) \
+                    and not (T.is_op(leaf, 'STRIP') and leaf[2] == val):
+                same_term(ob, leaf, val, 'mnemonic returns the sentence unchanged (or stripped of surrounding white space)', fi.where)
+            else:
+                ob.require(True, 'mnemonic returns the sentence unchanged (or stripped)', fi.where)
         only_argerror(ob, v, fi.where, 'mnemonic')
         fi = p.get_function('__main__.file_')
         v, f = ev.call_function('__main__.file_', [val])
@@ -367,7 +406,7 @@ def run(ctx):
         # the file is created exclusively, or its path is the one validated by file_ (refuses existing paths)
         modes = [n for n in ast.walk(etf.node) if isinstance(n, ast.Call) and ast.unparse(n.func) == 'open']
         excl = all(len(n.args) > 1 and isinstance(n.args[1], ast.Constant) and 'x' in str(n.args[1].value) for n in modes)
-        calls, _ = _add_argument_calls(fpa)
+        calls, _ = _add_argument_calls(fpa, p)
         validated = any(_dest(names) == 'file' and isinstance(kw.get('type'), ast.Name) and kw['type'].id == 'file_'
                         for _, names, kw, _l in calls)
         ob.require(excl or validated, 'an existing file can be overwritten: export_to_file does not create exclusively and --file is '
